@@ -112,7 +112,9 @@ def measure_ladder(o) -> dict:
         order = {"ascending": np.arange(len(ps)), "descending": np.arange(len(ps))[::-1],
                  "outwards": np.argsort(np.abs(np.array(ps) - pb), kind="stable")}[style]
         arr = np.array(ps, dtype=float)[order]
-        for nm, f in names:
+        # every routine is called twice on the grid, the second round after all the others have been called with the same fluid
+        # and grid (a table builder asks for Rs, Bo, density, then Bo again for another column): the later answer is judged
+        for nm, f in names + names[:3]:
             try:
                 with warnings.catch_warnings():
                     warnings.simplefilter("ignore")
